@@ -20,9 +20,25 @@ def run_harness(ctx, binary, nshard, env):
         tf = os.path.join(ctx.scratch, "pool.%d.trace.ndjson" % k)
         e = dict(env)
         e.update(VERIF_TRACE=tf, VERIF_SHARD="%d/%d" % (k, nshard))
-        rc, out = run_test_bin(ctx, binary, "TestVerifPool", env=e, timeout=3600)
-        if rc != 0 or not os.path.exists(tf):
-            raise MachineryError("pool harness shard %d failed rc=%s\n%s" % (k, rc, out[-3000:]))
+        # A shard normally takes 30-60 s (quick) / 3-6 min (thorough). Rarely (about one thorough run in four on a loaded machine) one
+        # shard hangs without any CPU use - a lost wake-up at shutdown / a stuck waiter are known liveness weaknesses of the pool
+        # (DESIGN 11.3, L1 and the C12 builder's note), not safety verdicts. The incomplete trace of such an attempt is discarded and
+        # the shard is run once more; only a second failure is a machinery error.
+        last = ""
+        for attempt in (1, 2):
+            if os.path.exists(tf):
+                os.remove(tf)
+            try:
+                rc, out = run_test_bin(ctx, binary, "TestVerifPool", env=e, timeout=900 if ctx.quick else 1500)
+            except MachineryError as ex:
+                rc, out = -1, str(ex)
+            if rc == 0 and os.path.exists(tf):
+                break
+            last = "attempt %d: rc=%s\n%s" % (attempt, rc, out[-2500:])
+            log("pool harness shard %d attempt %d failed (rc=%s)%s" % (k, attempt, rc, ", running it once more" if attempt == 1 else ""))
+            ctx.notes.append("pool harness shard %d: attempt %d failed rc=%s" % (k, attempt, rc))
+        else:
+            raise MachineryError("pool harness shard %d failed twice\n%s" % (k, last))
         rows = read_ndjson(tf)
         rows.sort(key=lambda r: r["seq"])
         return tc.split_traces(rows)
